@@ -13,7 +13,7 @@ trap 'git -C /repo checkout -- . ; git -C /repo clean -fdq -e target >/dev/null 
 if [ "${SKIP_BASELINE:-0}" != 1 ]; then
   if (cd /repo && cargo test --workspace --no-fail-fast --offline >/tmp/mut-baseline.log 2>&1); then echo "baseline: green"; else echo "baseline: RED (mutant is caught by the existing tests)"; grep -E "^test .* FAILED|error" /tmp/mut-baseline.log | head -5; fi
 fi
-mkdir -p /verif/work/mut-replays
+before="$(ls /verif/replays/*.json 2>/dev/null | sort)"
 for id in "$@"; do
   t0=$(date +%s.%N)
   out=$(VERIF_SEED="${VERIF_SEED:-1}" ./check "$id" "$tier" 2>&1); code=$?
@@ -24,4 +24,8 @@ for id in "$@"; do
   echo "$out" | grep -E "^  message:" | head -1 | cut -c1-300
 done
 # replay files written while the mutant was applied must not linger as regressions
-rm -f /verif/replays/*.json
+# (the committed regression replays of the repaired findings stay)
+for f in $(ls /verif/replays/*.json 2>/dev/null | sort); do
+  echo "$before" | grep -qx "$f" || rm -f "$f"
+done
+git -C /verif checkout -- replays 2>/dev/null || true
